@@ -1860,6 +1860,12 @@ def eliminate_caches(ts):
 
 
 # ---- integer re-parametrisation
+def _carries(x, v, ex):
+    """x == v + constant"""
+    a = ex.aff(x) if ex.is_int(x) else None
+    return a is not None and set(a.c) == {v} and a.c[v] == 1
+
+
 def reparametrise(ts):
     ex = ts.ex
     phases = ts.phases()
@@ -1878,7 +1884,10 @@ def reparametrise(ts):
                 w = (v, p)
                 c0[w] = vals[0][1]
                 scal_ok[w] = True
-            elif vals and all(x == ("var", v) for x in vals) and prev is not None:
+            elif vals and prev is not None and any(x == ("var", v) or _carries(x, v, ex) for x in vals) \
+                    and all(x[0] == "num" or x == ("var", v) or _carries(x, v, ex) for x in vals):
+                # the variable is carried into the later loop nest (unchanged, or advanced / reset on the way there: a way out of the earlier
+                # nest that was composed with its last pass): the same counter, the same parameters
                 w = prev
             else:
                 w = (v, p)
@@ -2166,6 +2175,103 @@ def drop_arrays(ts, bases):
         t["arrays"] = {b: st for b, st in t["arrays"].items() if b not in bases}
         t["acc"] = [a for a in t["acc"] if a[0] not in bases]
     return ts
+
+
+# ---- where a loop is left
+def _has_sel(e):
+    if isinstance(e, tuple) and e:
+        if e[0] in ("sel", "unknown", "opq"):
+            return True
+        return any(_has_sel(x) for x in e[1:])
+    return False
+
+
+def merge_exits(ts):
+    """A way out of a loop that is decided by integer tests alone and does nothing but update counters (`j < 2` at the inner head, `k >= L` at
+    the count loop, `k >= j` at step 6) is taken as soon as its condition is known: the transition is composed into every transition that
+    arrives at the head, and those keep the complementary condition.  The system then no longer depends on *where* the source tests the
+    condition: at the top of the loop, at its bottom (do-while, `while True` + `if ...: break`), before entering it (`if j < 2: continue`), or
+    through a flag that is cleared when the condition arises.  An exact rewriting of the transition relation (composition of relations);
+    heads are processed from the innermost outwards, in source order."""
+    ex = ts.ex
+    parent = {}
+    for s_, depth, par in ex.loops:
+        parent[ex.loop_ids[id(s_)]] = ex.loop_ids[id(par)] if par is not None else None
+
+    def in_nest(node, root):
+        x = node
+        while x is not None:
+            if x == root:
+                return True
+            x = parent.get(x)
+        return False
+    heads = [n for n in ts.nodes if n[:1] == "H"]
+    depth = {}
+    for h in heads:
+        d, x = 0, parent.get(h)
+        while x is not None:
+            d, x = d + 1, parent.get(x)
+        depth[h] = d
+    order = sorted(heads, key=lambda h: (-depth[h], heads.index(h)))
+    for h in order:
+        for _round in range(6):
+            cand = None
+            for t in ts.trans:
+                if t["src"] != h or in_nest(t["dst"], h) or not t["key"]:
+                    continue
+                if any(a[0] not in ("ige", "ieq") for a, _ in t["key"]):
+                    continue
+                if any(st for st in t["arrays"].values()) or any(rw != "r" for b, i, rw in t["acc"]) or t["events"] or t.get("ret") is not None \
+                        or t.get("exc") is not None:
+                    continue          # (a read whose value is no longer used - `A = pts[0]` with A replaced by pts[k] - stays an access to be checked)
+                if any(_has_sel(x) for x in t["scal"].values()) or any(_has_sel(a) for a, _ in t["key"]):
+                    continue
+                cand = t
+                break
+            if cand is None:
+                break
+            out = []
+            for t in ts.trans:
+                if t is cand:
+                    continue
+                if t["dst"] != h:
+                    out.append(t)
+                    continue
+                mp = {v: x for v, x in t["scal"].items()}
+                if any(x == ("unknown",) for v, x in mp.items() if any(v in free_vars(y) for y in values_of(cand))):
+                    return ts          # the exit reads a variable that has no defined value on this way in: leave the system as it is
+                base_cons, base_disj, _ = guard_of(t, ex)
+                atoms = [(subst_vars(a, mp, ex), taken) for a, taken in cand["key"]]
+                # the composed transition: all exit tests as recorded
+                key = list(t["key"]) + atoms
+                cons, disj, _ = guard_of(dict(key=key), ex)
+                if feasible_with(cons, disj):
+                    scal = {v: subst_vars(x, mp, ex) for v, x in cand["scal"].items()}
+                    acc = list(t["acc"]) + [(b, ex.aff(subst_vars(aff_ir(i), mp, ex)), rw) for b, i, rw in cand["acc"]]
+                    out.append(dict(t, dst=cand["dst"], key=_decided_dropped(key, ex), scal=scal, acc=acc))
+                # ... and the ways on to the head: the first i - 1 exit tests as recorded, the i-th the other way
+                for i in range(len(atoms)):
+                    key = list(t["key"]) + atoms[:i] + [(atoms[i][0], not atoms[i][1])]
+                    cons, disj, _ = guard_of(dict(key=key), ex)
+                    if feasible_with(cons, disj):
+                        out.append(dict(t, key=_decided_dropped(key, ex)))
+            ts.trans = out
+            ts.notes.append(f"{h}: the way out to {cand['dst']} when {' and '.join(('' if tk else 'not ') + show(a) for a, tk in cand['key'])} is taken "
+                            "from wherever the head is reached")
+    return ts
+
+
+def _decided_dropped(key, ex):
+    """a guard without the integer atoms that no longer mention a variable (decided by the composition) and without repeated atoms"""
+    out = []
+    for a, taken in key:
+        if a[0] in ("ige", "ieq"):
+            d = ex.aff(a[1])
+            if d is not None and not d.c:
+                continue
+        if (a, taken) not in out:
+            out.append((a, taken))
+    return out
 
 
 def normalise(ts, with_ret=False, parent=None):
